@@ -159,6 +159,7 @@ def check_call_join(P, ctx):
         ctx.fn(fn)
         N = util.Norm(P, fn, keep={'cast'})
         cs = [(n, c) for (n, c) in g.nodes_calling(lib)]
+        cs = [(n, c) for (n, c) in cs if any(x is c or x == c for x in util.unconditional_calls(n['expr']))] if len(cs) == 1 else cs
         ok = len(cs) == 1 and g.must_pass(g.exit, [cs[0][0]['id']]) or (len(cs) == 1 and all(g.must_pass(r['id'], [cs[0][0]['id']]) for r in g.live() if r['kind'] in ('ret',)) and
                                                                        g.must_pass(g.exit, [cs[0][0]['id']]))
         if len(cs) == 1:
